@@ -649,7 +649,7 @@ func runC18(c *core.Ctx) {
 				}
 			}
 		}
-		c.RunSharded(cases, core.ShardOpts{Mode: "c18", Bin: bin, Workers: 7, CPUs: 2, Timeout: 10 * time.Minute, Env: env})
+		c.RunSharded(cases, core.ShardOpts{Mode: "c18", Bin: bin, Workers: 7, CPUs: 2, Timeout: 10 * time.Minute, PerCaseTime: 10 * time.Second, Env: env})
 	}
 	c.Extra("race_detector_reports", countRaceReports(c, c.Scratch+"/race-C18", "C18"))
 	c.Extra("exhaustive_part", "all 2^(n-1) chunkings of 8 texts of up to 8 bytes")
